@@ -127,6 +127,11 @@ func c20(r *core.Report) {
 		r.Check(okN, "C20-ADMIT", core.FnName(fn)+" window", p.Pos(fn.Pos()), "the candidate window is at least 1 before anything is popped", "the candidate window can be 0: the list is truncated to nothing and pop indexes an empty slice")
 	}
 
+	// ---- C20-DISTANCE (shared with C19-CMP-SHAPE): every decision of the iteration (candidate order,
+	// "actually closer", Closest) goes through DistanceLt; it must be the byte-wise order of XOR distances
+	r.Rule("C20-DISTANCE", "DistanceCmp compares x^a with x^b byte by byte from the first byte; DistanceLt/Gt are its sign", 6)
+	ruleCmpShape(r, "C20-DISTANCE")
+
 	// ---- C20-VISIT-ONCE: "contacting each distinct node at most once": the callback is reached only
 	// through the 'not yet visited' edge of a lookup of the popped node's id in a set local to
 	// dhtIterate, and the id is added to that set before the callback runs. (With both, no id is ever
